@@ -40,8 +40,10 @@ Routes == {"path", "id", "ref"}
 
 (* ------------------------------- documents ------------------------------ *)
 Bodies == {"none", "one", "two", "ref"}
-Secs == {"none", "hdr", "qry", "basic", "off", "ref"}
-Bads == {"none", "paramref", "noin", "itemref"}
+Secs == {"none", "hdr", "qry", "basic", "off", "ref", "clash"}   \* "clash": apiKey named like the declared parameter (p, query)
+Bads == {"none", "paramref", "noin", "itemref", "hdrname", "noschema"}
+        \* unresolvable parameter $ref / no "in" / unresolvable path item / header name that is no token / neither schema nor content
+Vers == {"3.0", "3.1", "2.0"}
 DocSpace == [plK1 : BOOLEAN, plK2 : BOOLEAN,                 \* path-level parameter (p, query) / (p, header) present
              olK1 : BOOLEAN, olK2 : BOOLEAN, olK3 : BOOLEAN, \* M's own parameter (p, query) / (p, header) / (q, query)
              orient : {"pT", "oT"},                          \* which level says required: true (the other says false)
@@ -55,21 +57,28 @@ DocSpace == [plK1 : BOOLEAN, plK2 : BOOLEAN,                 \* path-level param
              collide : BOOLEAN,                              \* the document holding M's path item and the root document each define
                                                              \*   a parameter under the SAME local pointer text with different content:
                                                              \*   M / O use their own document's (lim, tag 13), Z the root's (lim, tag 12)
+             ver : Vers,                                     \* OpenAPI 3.0.x / 3.1.x / Swagger 2.0 rendering of the same API
+             qcontent : BOOLEAN,                             \* Z's own parameter is described by "content" instead of "schema" (3.x)
+             secgen : BOOLEAN,                               \* FALSE: the user switched security parameters off in the configuration
+             oNoId : BOOLEAN,                                \* O has no operationId
              sec : Secs,                                     \* security scheme kind ("off": global, disabled on M)
              bad : Bads]                                     \* malformed entry in Z
 Base == [plK1 |-> TRUE, plK2 |-> FALSE, olK1 |-> TRUE, olK2 |-> FALSE, olK3 |-> FALSE, orient |-> "pT",
          pdepth |-> 1, odepth |-> 0, pathRef |-> FALSE, body |-> "two", rec |-> FALSE, cross |-> "none", zpath |-> "/z", collide |-> FALSE,
-         sec |-> "hdr", bad |-> "none"]
+         ver |-> "3.0", qcontent |-> FALSE, secgen |-> TRUE, oNoId |-> FALSE, sec |-> "hdr", bad |-> "none"]
 B2N(b) == IF b THEN 1 ELSE 0
 Weight(d) == B2N(d.plK1 # Base.plK1) + B2N(d.plK2 # Base.plK2) + B2N(d.olK1 # Base.olK1) + B2N(d.olK2 # Base.olK2)
            + B2N(d.olK3 # Base.olK3) + B2N(d.orient # Base.orient) + B2N(d.pdepth # Base.pdepth)
            + B2N(d.odepth # Base.odepth) + B2N(d.pathRef # Base.pathRef /\ ~d.collide) + B2N(d.body # Base.body)
            \* (a second document with colliding pointers IS a path item behind a $ref: one deviation, not two)
            + B2N(d.rec # Base.rec) + B2N(d.sec # Base.sec) + B2N(d.bad # Base.bad) + B2N(d.cross # Base.cross)
-           + B2N(d.zpath # Base.zpath) + B2N(d.collide # Base.collide)
+           + B2N(d.zpath # Base.zpath) + B2N(d.collide # Base.collide) + B2N(d.ver # Base.ver)
+           + B2N(d.qcontent # Base.qcontent) + B2N(d.secgen # Base.secgen) + B2N(d.oNoId # Base.oNoId)
 WF(d) == /\ (d.rec => d.body # "none")
          /\ ((~d.olK1 /\ ~d.olK2 /\ ~d.olK3 /\ d.cross = "none") => d.odepth = 0)
          /\ (d.collide => d.pathRef)                  \* two documents are needed for two definitions under one pointer text
+         /\ (d.ver = "2.0" => ~d.qcontent /\ d.bad # "noschema" /\ d.sec # "ref")   \* 2.0 has no "content", no parameter "schema", no $ref there
+         /\ (d.qcontent => d.bad = "none")
 (* all documents within MaxDev single-feature changes of Base (built by changing one feature at a time) *)
 Variants(d) == {[d EXCEPT !.plK1 = b] : b \in BOOLEAN} \cup {[d EXCEPT !.plK2 = b] : b \in BOOLEAN}
           \cup {[d EXCEPT !.olK1 = b] : b \in BOOLEAN} \cup {[d EXCEPT !.olK2 = b] : b \in BOOLEAN}
@@ -78,6 +87,8 @@ Variants(d) == {[d EXCEPT !.plK1 = b] : b \in BOOLEAN} \cup {[d EXCEPT !.plK2 = 
           \cup {[d EXCEPT !.pathRef = b] : b \in BOOLEAN} \cup {[d EXCEPT !.body = x] : x \in Bodies}
           \cup {[d EXCEPT !.rec = b] : b \in BOOLEAN} \cup {[d EXCEPT !.sec = x] : x \in Secs}
           \cup {[d EXCEPT !.bad = x] : x \in Bads} \cup {[d EXCEPT !.cross = x] : x \in {"none", "fwd", "mirror"}}
+          \cup {[d EXCEPT !.ver = x] : x \in Vers} \cup {[d EXCEPT !.qcontent = b] : b \in BOOLEAN}
+          \cup {[d EXCEPT !.secgen = b] : b \in BOOLEAN} \cup {[d EXCEPT !.oNoId = b] : b \in BOOLEAN}
           \cup {[d EXCEPT !.zpath = x] : x \in ZPaths} \cup {[d EXCEPT !.collide = TRUE, !.pathRef = TRUE], [d EXCEPT !.collide = FALSE]}
 RECURSIVE Within(_, _)
 Within(S, n) == IF n = 0 THEN S ELSE Within(S \cup UNION {Variants(d) : d \in S}, n - 1)
@@ -106,36 +117,50 @@ OpLevel(d, t) == CASE t = "M" -> {Param(KName(k), KLoc(k), d.orient = "oT", 2) :
 (* THE merge rule of the property: path-level parameters overridden by operation-level ones of the same name and location *)
 Effective(pathParams, opParams) ==
     opParams \cup {p \in pathParams : ~\E o \in opParams : o.name = p.name /\ o.loc = p.loc}
-SecActive(d, t) == d.sec # "none" /\ ~(d.sec = "off" /\ t = "M")
+SecActive(d, t) == d.sec # "none" /\ ~(d.sec = "off" /\ t = "M") /\ d.secgen
 SecParams(d, t) == IF ~SecActive(d, t) THEN {}
                    ELSE IF d.sec = "qry" THEN {Param("k", "query", TRUE, 0)}
+                   ELSE IF d.sec = "clash" THEN {Param("p", "query", TRUE, 0)}
                    ELSE IF d.sec = "basic" THEN {Param("Authorization", "header", TRUE, 90)}
                    ELSE {Param("X-Key", "header", TRUE, 0)}
 Alt(m, r, g) == [media |-> m, req |-> r, tag |-> g]
 JsonTag(d) == IF d.rec THEN 77 ELSE 5
+(* 3.x: one schema per media type of requestBody.content; 2.0: ONE body parameter, offered under every media type of "consumes" *)
 BodiesOf(d, t) == IF t # "M" THEN {}
-                  ELSE CASE d.body = "none" -> {}
+                  ELSE LET other(g) == IF d.ver = "2.0" THEN JsonTag(d) ELSE g IN
+                       CASE d.body = "none" -> {}
                          [] d.body = "one" -> {Alt("application/json", FALSE, JsonTag(d))}
-                         [] d.body = "two" -> {Alt("application/json", TRUE, JsonTag(d)), Alt("text/plain", TRUE, 7)}
-                         [] OTHER -> {Alt("application/json", TRUE, JsonTag(d)), Alt("text/plain", TRUE, 7),
-                                      Alt("application/xml", TRUE, 8)}
+                         [] d.body = "two" -> {Alt("application/json", TRUE, JsonTag(d)), Alt("text/plain", TRUE, other(7))}
+                         [] OTHER -> {Alt("application/json", TRUE, JsonTag(d)), Alt("text/plain", TRUE, other(7)),
+                                      Alt("application/xml", TRUE, other(8))}
+                                     \cup (IF d.ver = "2.0" THEN {} ELSE {Alt("multipart/form-data", TRUE, 9)})
 (* mapping keys and date-like scalars are text, whatever the serialisation *)
 RespKeys(t) == IF t = "M" THEN {"200", "404", "default"} ELSE {"200"}
 PropNames == {"no", "on", "v"}
 DateScalar == "2020-01-01"
 Malformed(d, t) == t = "Z" /\ d.bad # "none"
 HasJsonBody(d, t) == t = "M" /\ d.body # "none"
+(* the JSON reference of an operation: "#/paths/" + RFC 6901 escape of the path ("~" -> "~0", "/" -> "~1") + "/" + method *)
+Esc(path) == CASE path = "/m/{id}" -> "~1m~1{id}" [] path = "/z" -> "~1z" [] path = "/f/~1" -> "~1f~1~01" [] path = "/f/~0" -> "~1f~1~00"
+               [] path = "/f/~01" -> "~1f~1~001" [] path = "/f/~10" -> "~1f~1~010" [] path = "/f//" -> "~1f~1~1" [] OTHER -> "~1f~1~10"
+(* a security parameter with the (name, in) of a declared parameter: the operation still has exactly ONE parameter under that key;
+   which of the two definitions describes it is not decided by the standard -> the key is judged, the definition is not *)
+Declared(d, t) == Effective(PathLevel(d, t), OpLevel(d, t))
+Clash(d, t) == {[name |-> p.name, loc |-> p.loc] : p \in {p \in SecParams(d, t) : \E q \in Declared(d, t) : q.name = p.name /\ q.loc = p.loc}}
 Outcome(d, t) ==
     IF Malformed(d, t)
-    THEN [ok |-> FALSE, path |-> PathOf(d, t), method |-> "", params |-> {}, bodies |-> {}, resp |-> {}, props |-> {}, date |-> ""]
-    ELSE [ok |-> TRUE, path |-> PathOf(d, t), method |-> MethodOf(t),
-          params |-> Effective(PathLevel(d, t), OpLevel(d, t)) \cup SecParams(d, t),
+    THEN [ok |-> FALSE, path |-> PathOf(d, t), method |-> "", esc |-> "", params |-> {}, free |-> {}, bodies |-> {}, resp |-> {}, props |-> {}, date |-> ""]
+    ELSE [ok |-> TRUE, path |-> PathOf(d, t), method |-> MethodOf(t), esc |-> Esc(PathOf(d, t)),
+          params |-> {p \in Declared(d, t) \cup SecParams(d, t) : [name |-> p.name, loc |-> p.loc] \notin Clash(d, t)},
+          free |-> Clash(d, t),
           bodies |-> BodiesOf(d, t), resp |-> RespKeys(t),
           props |-> IF HasJsonBody(d, t) THEN PropNames ELSE {},        \* property names of the JSON body schema
           date |-> IF HasJsonBody(d, t) THEN DateScalar ELSE ""]        \* its date-like default value
 (* a JSON reference "#/paths/<path>/<method>" into a path item that is itself a $ref: the standard does not say whether
    the pointer continues through the reference -> such an access is made but not judged *)
 Judged(d, a) == ~(a.k = "ref" /\ a.t # "Z" /\ d.pathRef)
+(* looking up an operationId that no operation carries must fail *)
+NoSuchId(d, a) == a.k = "id" /\ a.t = "O" /\ d.oNoId
 
 (* ----------------------------- the system ------------------------------- *)
 VARIABLES doc, ser, lay, hist, ops, byKey, byId, byRef, ret
@@ -156,13 +181,13 @@ Materialise(t, key, id, ref) ==
     LET idx == Len(ops) + 1 IN
       /\ ops' = Append(ops, t)
       /\ byKey' = [byKey EXCEPT ![t] = idx]
-      /\ byId' = IF id THEN [byId EXCEPT ![t] = idx] ELSE byId
+      /\ byId' = IF id /\ ~(t = "O" /\ doc.oNoId) THEN [byId EXCEPT ![t] = idx] ELSE byId
       /\ byRef' = IF ref THEN [byRef EXCEPT ![t] = idx] ELSE byRef
 Lookup(k, t) ==
     /\ CanStep
     /\ hist' = Append(hist, Access(k, t))
     /\ UNCHANGED <<doc, ser, lay>>
-    /\ IF Malformed(doc, t)
+    /\ IF Malformed(doc, t) \/ NoSuchId(doc, Access(k, t))
        THEN ret' = Append(ret, {t}) /\ UNCHANGED <<ops, byKey, byId, byRef>>       \* an error, nothing cached
        ELSE LET own == CASE k = "path" -> 0 [] k = "id" -> byId[t] [] OTHER -> byRef[t]
                 hit == IF own # 0 THEN own ELSE byKey[t]
@@ -202,7 +227,7 @@ MergeLaw == \A t \in Ops(doc) : LET e == Effective(PathLevel(doc, t), OpLevel(do
 (* different operations have different (path, method): a reference or a path can never denote two of them *)
 DistinctOps == \A t, u \in Ops(doc) : (PathOf(doc, t) = PathOf(doc, u) /\ MethodOf(t) = MethodOf(u)) => t = u
 PairKeyed == \A t \in Ops(doc) : \A p \in PathLevel(doc, t) :
-                (~\E o \in OpLevel(doc, t) : o.name = p.name /\ o.loc = p.loc) => p \in Outcome(doc, t).params \/ Malformed(doc, t)
+                (~\E o \in OpLevel(doc, t) : o.name = p.name /\ o.loc = p.loc) => p \in Outcome(doc, t).params \/ [name |-> p.name, loc |-> p.loc] \in Outcome(doc, t).free \/ Malformed(doc, t)
 
 (* ------------------------------- export --------------------------------- *)
 (* every reachable state is one family element; the expected outcomes depend on the document only and are printed once per
@@ -212,10 +237,12 @@ SIdx(x, seq) == CHOOSE n \in 1..Len(seq) : seq[n] = x
 DocId(d) == B2N(d.plK1) + 2 * B2N(d.plK2) + 4 * B2N(d.olK1) + 8 * B2N(d.olK2) + 16 * B2N(d.olK3) + 32 * B2N(d.orient = "oT")
           + 64 * d.pdepth + 192 * d.odepth + 576 * B2N(d.pathRef) + 1152 * B2N(d.rec)
           + 2304 * (SIdx(d.body, <<"none", "one", "two", "ref">>) - 1)
-          + 9216 * (SIdx(d.sec, <<"none", "hdr", "qry", "basic", "off", "ref">>) - 1)
-          + 55296 * (SIdx(d.bad, <<"none", "paramref", "noin", "itemref">>) - 1)
-          + 221184 * (SIdx(d.cross, <<"none", "fwd", "mirror">>) - 1)
-          + 663552 * (SIdx(d.zpath, <<"/z", "/f/~1", "/f/~0", "/f/~01", "/f/~10">>) - 1) + 3317760 * B2N(d.collide)
+          + 9216 * (SIdx(d.sec, <<"none", "hdr", "qry", "basic", "off", "ref", "clash">>) - 1)
+          + 64512 * (SIdx(d.bad, <<"none", "paramref", "noin", "itemref", "hdrname", "noschema">>) - 1)
+          + 387072 * (SIdx(d.cross, <<"none", "fwd", "mirror">>) - 1)
+          + 1161216 * (SIdx(d.zpath, <<"/z", "/f/~1", "/f/~0", "/f/~01", "/f/~10">>) - 1) + 5806080 * B2N(d.collide)
+          + 11612160 * (SIdx(d.ver, <<"3.0", "3.1", "2.0">>) - 1) + 34836480 * B2N(d.qcontent) + 69672960 * B2N(~d.secgen)
+          + 139345920 * B2N(d.oNoId)
 Export == IF hist = <<>> THEN TRUE
           ELSE IF First
           THEN PrintT(<<"CASE", ToJson([id |-> DocId(doc), d |-> doc, w |-> Weight(doc), ser |-> ser, lay |-> lay, h |-> hist,
